@@ -249,6 +249,29 @@ func evGenPod(g *sim.Rng, name string, capMi int64) evPod {
 	return p
 }
 
+// boundary magnitudes of the "extreme" profile. The two values just outside the int32 range are invalid annotations
+// (implicit eviction priority 0).
+var evExtremeEvPrio = []string{"2000000000", "-2000000000", "2147483647", "2147483646", "-2147483648", "-2147483647", "1073741824", "-1073741825", "2147483648", "-2147483649"}
+var evExtremePrio = []int{-2147483648, -2147483647, -2000000000, -1000000000, 1000000000, 2000000000, 2000001000}
+
+// evExtremePod: half of the pods of an "extreme" plan carry a boundary eviction priority, a third of those that are
+// not labelled BE (a BE pod keeps a priority inside its koordinator band, see the assumptions) a boundary spec.priority;
+// such pods mostly have eviction enabled, so that they are candidates.
+func evExtremePod(g *sim.Rng, p *evPod) {
+	touched := false
+	if g.Bool(0.5) {
+		p.EvPrio = evPS(g.Pick(evExtremeEvPrio...))
+		touched = true
+	}
+	if p.QoS != "BE" && p.QoS != "SYSTEM" && g.Bool(0.33) {
+		p.Prio = int32(g.PickInt(evExtremePrio...))
+		touched = true
+	}
+	if touched && g.Bool(0.6) {
+		p.Enabled = "true"
+	}
+}
+
 // evSharedThr: thresholds of the "shared" profile: every strategy validly configured, wide release bands, priority
 // thresholds under which most pods are candidates of the priority strategies.
 func evSharedThr(g *sim.Rng) evThr {
@@ -300,9 +323,18 @@ func (evEngine) Generate(p *sim.Plan, g *sim.Rng) {
 	// one kind of refusal that leaves the pod running (err-before / 429), so that rounds in which a later task meets a
 	// candidate an earlier task was refused are common.
 	shared := g.Bool(0.25)
+	// Profile "extreme" (a fifth of the plans, independent of "shared"): boundary magnitudes of the two integer order
+	// keys. koordinator.sh/eviction-priority is parsed as an int32 (apis/extension.GetPodEvictionPriority; a value
+	// outside the range is invalid and counts as 0), spec.priority is an int32 whose realistic range is
+	// [-2^31, 2000001000] (user classes up to 1e9, the two system classes at 2e9 and 2e9+1000): values near both ends
+	// are mixed with the ordinary small ones, so that pairs more than 2^31 apart occur.
+	extreme := g.Bool(0.2)
+	if extreme {
+		cfg.Profile = "extreme"
+	}
 	switch x := g.Intn(10); {
 	case shared:
-		cfg.Profile = "shared"
+		cfg.Profile = strings.TrimPrefix(cfg.Profile+"+shared", "+")
 		switch g.Intn(4) {
 		case 0:
 			cfg.Features = []string{fBE, fUsed}
@@ -347,6 +379,10 @@ func (evEngine) Generate(p *sim.Plan, g *sim.Rng) {
 	if shared {
 		cfg.Thr = evSharedThr(g)
 	}
+	if extreme && cfg.Thr.PrioThr != nil && g.Bool(0.3) {
+		// "every priority may be evicted": pods of the highest classes become candidates of the used-threshold strategy
+		cfg.Thr.PrioThr = evP32(int32(g.PickInt(1000000000, 2000001000, 2147483647)))
+	}
 	cfg.Shuffle = g.Bool(0.7)
 	n := g.Range(5, 14)
 	nops := g.Range(8, 30)
@@ -359,6 +395,9 @@ func (evEngine) Generate(p *sim.Plan, g *sim.Rng) {
 		pod := evGenPod(g, fmt.Sprintf("p%02d", i), cfg.CapMi)
 		if shared {
 			evSharedPod(g, &pod, cfg.CapMi)
+		}
+		if extreme {
+			evExtremePod(g, &pod)
 		}
 		if pod.QoS == "BE" && pod.Phase == "" && g.Bool(0.7) {
 			// BE pods mostly use a good part of what they request (so that the BE tier runs near its limit)
@@ -459,6 +498,9 @@ func (evEngine) Generate(p *sim.Plan, g *sim.Rng) {
 			if shared {
 				evSharedPod(g, &pod, cfg.CapMi)
 			}
+			if extreme {
+				evExtremePod(g, &pod)
+			}
 			names = append(names, pod.Name)
 			ops = append(ops, evOp{K: "addpod", Spec: &pod})
 		case x < 78:
@@ -476,6 +518,9 @@ func (evEngine) Generate(p *sim.Plan, g *sim.Rng) {
 			case "evprio":
 				if g.Bool(0.8) {
 					op.S = evPS(g.Pick("-10", "-1", "0", "1", "5", "100"))
+					if extreme && g.Bool(0.5) {
+						op.S = evPS(g.Pick(evExtremeEvPrio...))
+					}
 				}
 			case "enabled":
 				if g.Bool(0.8) {
@@ -716,9 +761,9 @@ func evClassOf(pod *corev1.Pod) string {
 	return "none"
 }
 
-func evPrioOf(pod *corev1.Pod) int32 {
+func evPrioOf(pod *corev1.Pod) int64 {
 	if p := apiext.GetPodPriorityValueWithDefault(pod); p != nil {
-		return *p
+		return int64(*p)
 	}
 	return 0
 }
@@ -1164,7 +1209,7 @@ type evView struct {
 	m        *evMPod
 	spec     evPod
 	class    string
-	prio     int32
+	prio     int64 // both order keys are kept in 64 bits: they span the whole int32 range and are only ever compared
 	evprio   int64
 	fresh    bool  // a usage sample lies inside the agent's query window
 	usedLo   int64 // bytes the agent can know the pod uses (0 when unknown)
@@ -1333,7 +1378,7 @@ func (s *evSim) allowed(v *evView, f string) bool {
 	if f == fAlloc {
 		thr = s.thr.AllocPrioThr
 	}
-	return thr != nil && v.prio <= *thr && v.spec.Enabled == "true"
+	return thr != nil && v.prio <= int64(*thr) && v.spec.Enabled == "true"
 }
 
 // candidate: a pod this feature's policy names as a victim (what a round must not skip). 0 = no, 1 = optional
@@ -1357,7 +1402,7 @@ func (s *evSim) candidate(v *evView, f string) int {
 	if f == fAlloc {
 		thr = s.thr.AllocPrioThr
 	}
-	if thr == nil || v.prio > *thr || v.spec.Enabled != "true" {
+	if thr == nil || v.prio > int64(*thr) || v.spec.Enabled != "true" {
 		return 0
 	}
 	if !v.active || !v.fresh {
@@ -1776,7 +1821,7 @@ func (s *evSim) checkTriggers(now time.Time, views map[string]*evView, tasks []*
 				}
 				var req int64
 				for _, n := range s.order {
-					if v := views[n]; v != nil && v.prio <= *t.AllocPrioThr && v.reqRes == rn {
+					if v := views[n]; v != nil && v.prio <= int64(*t.AllocPrioThr) && v.reqRes == rn {
 						req += v.req
 					}
 				}
